@@ -179,6 +179,42 @@ def main():
                     seen.add(key)
                     histories.append(h)
                     meta.append({"script": s, "schedule": [c for c, n in r["end"]["choices"]]})
+        # longer lives: every thread waits and notifies several times, on addresses that share a bucket and on one that does not; records,
+        # lists and table entries are created, emptied and created again (whatever is recycled must come back clean).  Random schedules.
+        lrng = random.Random(SEED + 1717)
+        long_scripts = ["W32:%d:0:5;W32:%d:0:5;W32:%d:0:5|W32:%d:0:5;W32:%d:0:5|N:%d:2;N:%d:2;N:%d:1;N:%d:1" % (A, A, B, A, A, A, A, A, B),
+                        "W32:%d:0:5;W32:%d:0:5;W32:%d:0:-1|W32:%d:0:5;W32:%d:0:5;N:%d:1|N:%d:2;N:%d:2;N:%d:1" % (A, A, C, A, A, C, A, A, A)]
+        for _ in range(10 if tier == "quick" else 150):
+            thr = []
+            for t_ in range(lrng.choice([3, 3, 4])):
+                ops = []
+                for _k in range(lrng.choice([3, 4, 5])):
+                    a_ = lrng.choice([A, A, B, C])
+                    ops.append("N:%d:%d" % (a_, lrng.choice([1, 2, 2, 3])) if lrng.random() < (0.7 if t_ == 0 else 0.25) else
+                               "W32:%d:0:%d" % (a_, lrng.choice([5, 5, 5, -1])))
+                thr.append(";".join(ops))
+            long_scripts.append("|".join(thr))
+        for li_, s in enumerate(long_scripts):
+            exe_ = exe if (exe and li_ % 3) else exe_p
+            env = {"SCHED_SYNCLOG": "0", "SCHED_PREEMPT": "8", "ASAN_OPTIONS": "detect_leaks=0:abort_on_error=0"}
+            for r in explore.explore(exe_, [s], env=env, jobs=common.NCPU, rng=lrng, sample=(150 if li_ < 2 else 40) if tier == "quick" else (1500 if li_ < 2 else 300)):
+                stats["schedules"] += 1
+                if r["rc"] != 0 or "AddressSanitizer" in r["stderr"] or r["end"] is None:
+                    kind = "asan" if "AddressSanitizer" in r["stderr"] else ("hang" if r["rc"] == -999 else "crash")
+                    v.deviation("futex:%s" % kind, {"script": s, "schedule": r["prefix"], "stderr": r["stderr"][-1500:], "rc": r["rc"]},
+                                {"schedule.json": json.dumps({"script": s, "SCHED": r["prefix"], "env": env})})
+                    continue
+                if r["end"]["outcome"] == "steplimit":
+                    continue              # (a random schedule may keep waking a sleeper spuriously for ever: no statement)
+                if r["end"]["outcome"] == "deadlock":
+                    stats["deadlock_ends"] += 1
+                h = history_of(r)
+                key = json.dumps(h)
+                if key not in seen:
+                    seen.add(key)
+                    histories.append(h)
+                    meta.append({"script": s, "schedule": [c for c, n in r["end"]["choices"]]})
+        stats["long_life_scripts"] = len(long_scripts)
         stats["histories"] = len(histories)
         # 2b. real threads and real time: the runtime's own timed condition wait (deadline arithmetic) is only in play here.
         #     Long finite time-outs behave like "until notified" (result 0, the notify counts 1, nobody hangs); short ones with
@@ -256,6 +292,13 @@ def main():
                                                          "first_unexplained_event": h[at - 1] if 0 < at <= len(h) else None, "history": h},
                         {"history.ndjson": "\n".join(json.dumps(e) for e in h) + "\n",
                          "schedule.json": json.dumps(meta[idx])})
+        # 2c. a translated module under real threads, its shared memory defined or imported, threads on one instance, on instances of
+        #     their own, on child instances: a waiter that sleeps is found by notify through every one of these arrangements
+        import sharedmod
+        smres, smprobs = sharedmod.run_all(wd, common.build_w2c2(os.path.join(wd, "smbin")), tier, "C17")
+        for what, det in smprobs:
+            v.deviation("futex:module:%s" % what, det)
+        stats["module_level"] = {k_: {f_: r_[f_] for f_ in ("rounds",) + sharedmod.FIELDS["C17"]} for k_, r_ in smres.items()}
     finally:
         shutil.rmtree(wd, ignore_errors=True)
     # 3. emission: static offset reaches the runtime (machine replay, non-blocking outcomes)
